@@ -150,13 +150,30 @@ func runC16x(c c16Case, info *c16Info) *vstat.Failure {
 			seq++
 			appendData(fmt.Sprintf("L%d\n", seq))
 		case "crlf":
+			// a CR LF terminated line; its own text may contain carriage
+			// returns too, in the middle or as its last byte (a progress
+			// display), and only the terminator's is dropped
 			seq++
-			appendData(fmt.Sprintf("L%d\r\n", seq))
+			switch st.N % 4 {
+			case 2:
+				appendData(fmt.Sprintf("L%d\rmid\r\n", seq))
+			case 3:
+				appendData(fmt.Sprintf("L%d\r\r\n", seq))
+			default:
+				appendData(fmt.Sprintf("L%d\r\n", seq))
+			}
 		case "binary":
 			// bytes that are not UTF-8 (a Latin-1 log, a stray continuation byte, a
 			// sequence cut short by the line end): delivered as they are
 			seq++
 			appendData(fmt.Sprintf("L%d caf\xe9 \xff\xfe \x80 \xe3\x81\n", seq))
+		case "special":
+			// a line that begins and ends with something text handling
+			// elsewhere treats specially (white space, NUL, a byte order
+			// mark, a Unicode line separator): delivered as it is
+			seq++
+			sp := c16Special[(st.N+si)%len(c16Special)]
+			appendData(fmt.Sprintf("%sL%d%s\n", sp, seq, sp))
 		case "multi":
 			var sb strings.Builder
 			for k := 0; k < 2+st.N%3; k++ {
@@ -379,7 +396,7 @@ func TestC16(t *testing.T) {
 	st.Assumptions = []string{"a step counts as observed when every live stream and the pattern poller are back in Wake() and log_count matches the model", "every line carries a sequence number, so loss, duplication, merging and reordering are told apart"}
 	st.Run(t, c16RunRaw, func() {
 		ops := []string{"line", "line", "crlf", "multi", "frag", "frag", "complete", "truncate", "rotate", "copytruncate", "delete", "recreate", "poll",
-			"line", "line", "crlf", "multi", "frag", "frag", "complete", "truncate", "rotate", "copytruncate", "delete", "recreate", "poll", "burst", "binary", "binary", "delete-recreate", "replace-between-wakes", "frag-cr", "blank", "blank", "cr-truncate-newline"}
+			"line", "line", "crlf", "multi", "frag", "frag", "complete", "truncate", "rotate", "copytruncate", "delete", "recreate", "poll", "burst", "binary", "binary", "special", "special", "delete-recreate", "replace-between-wakes", "frag-cr", "blank", "blank", "cr-truncate-newline"}
 		var drop []string
 		if st.IsLive("C16-1") { // fragment re-delivered after truncation
 			drop = append(drop, "C16-1")
@@ -420,3 +437,5 @@ func TestC16(t *testing.T) {
 		_ = drop
 	})
 }
+
+var c16Special = []string{" ", "\t", "\x00", "\x0b", "\x0c", "\x1a", "\x7f", "\xef\xbb\xbf", "\xc2\x85", "\xe2\x80\xa8", "\xc2\xa0"}
